@@ -131,6 +131,8 @@ fn make_world(spec: &str) -> Option<Box<dyn World>> {
         invariants: None,
         cross: None,
         db: 0,
+        destructive_probes: None,
+        on_reset: None,
     })))
 }
 
